@@ -61,6 +61,7 @@ func init() {
 			k.OverdraftFlag = gen.Chance(t, "c12.od", 30)
 			k.PWorldFallback = 40
 			k.POverUnity = 5
+			k.PWeirdAccount = 2
 			ec = gen.NewTG(t, k).Case()
 		}
 		// arbitrary variable texts: either every variable is up for grabs, or (light mode)
